@@ -19,7 +19,7 @@ let int_of_n = function N0 -> 0 | Npos p -> int_of_pos p
 let rec nat_of_int n = if n <= 0 then Datatypes.O else Datatypes.S (nat_of_int (n - 1))
 let rec int_of_nat = function Datatypes.O -> 0 | Datatypes.S n -> 1 + int_of_nat n
 
-let str_of_string (s : string) : Base.str = L.init (String.length s) (fun i -> n_of_int (Char.code s.[i]))
+let str_of_string (s : string) : Base.str = L.init (Stdlib.String.length s) (fun i -> n_of_int (Char.code (Stdlib.String.get s i)))
 let string_of_str (s : Base.str) : string =
   let b = Buffer.create 16 in
   L.iter (fun c -> Buffer.add_char b (Char.chr (int_of_n c land 255))) s;
@@ -27,14 +27,14 @@ let string_of_str (s : Base.str) : string =
 
 let hex (s : string) : string =
   if s = "" then "-" else begin
-    let b = Buffer.create (2 * String.length s) in
-    String.iter (fun c -> Buffer.add_string b (Printf.sprintf "%02x" (Char.code c))) s;
+    let b = Buffer.create (2 * Stdlib.String.length s) in
+    Stdlib.String.iter (fun c -> Buffer.add_string b (Printf.sprintf "%02x" (Char.code c))) s;
     Buffer.contents b
   end
 let unhex (h : string) : string =
   if h = "-" then "" else begin
-    let n = String.length h / 2 in
-    String.init n (fun i -> Char.chr (int_of_string ("0x" ^ String.sub h (2 * i) 2)))
+    let n = Stdlib.String.length h / 2 in
+    Stdlib.String.init n (fun i -> Char.chr (int_of_string ("0x" ^ Stdlib.String.sub h (2 * i) 2)))
   end
 let hexs (s : Base.str) = hex (string_of_str s)
 
@@ -136,7 +136,7 @@ let print_vm_state (s : vm) =
    | Base.Ok b -> pr " done=%d" (if b then 1 else 0)
    | _ -> pr " done=UB");
   pr " ops=";
-  L.iter (fun i -> Buffer.add_char buf opch.[int_of_opcode i.iop]) s.prog.code;
+  L.iter (fun i -> Buffer.add_char buf (Stdlib.String.get opch (int_of_opcode i.iop))) s.prog.code;
   pr " views=";
   (match views s with
    | Base.Ok vs ->
@@ -211,9 +211,36 @@ let run_vm tk =
   done;
   pr "END"
 
+(* ---- compiler stages ---- *)
+let string_of_coqstring (s : char list) : string =
+  let b = Buffer.create 16 in L.iter (Buffer.add_char b) s; Buffer.contents b
+
+let read_files tk =
+  let main = sstr tk in
+  let k = num tk in
+  let files = times k (fun () -> let n = sstr tk in let c = sstr tk in (n, c)) in
+  (main, files)
+
+let tok_s (t : Tokens.token) =
+  Printf.sprintf "%d:%s:%d:%s" (int_of_n (Tokens.tk_num t.Tokens.tk)) (hexs t.Tokens.tfile)
+    (int_of_z t.Tokens.tline) (hexs t.Tokens.ttext)
+let print_tokens (v : Tokens.token list) =
+  pr "toks=%d" (L.length v); L.iter (fun t -> pr " %s" (tok_s t)) v
+let perr_s (e : Errors.perr) =
+  Printf.sprintf "%d@%s:%d[%s]M%s" (int_of_z (Errors.perr_type e.Errors.pe_kind)) (hexs e.Errors.pe_file)
+    (int_of_z e.Errors.pe_line) (hexs e.Errors.pe_request) (string_of_coqstring (Errors.ekind_name e.Errors.pe_kind))
+let print_perrs (v : Errors.perr list) =
+  pr " errs=%d" (L.length v); L.iter (fun e -> pr " %s" (perr_s e)) v
+
+let run_scan tk =
+  let (main, files) = read_files tk in
+  let (toks, errs) = get (Scan.scan Gen_Lexer.rules files main) in
+  print_tokens toks; print_perrs errs
+
 let run_case tk =
   match next tk with
   | "vm" -> run_vm tk
+  | "scan" -> run_scan tk
   | _ -> pr "NOTMODELLED"
 
 let () =
@@ -221,7 +248,7 @@ let () =
   (try
      while true do
        let line = input_line ic in
-       let ws = L.filter (fun s -> s <> "") (String.split_on_char ' ' line) in
+       let ws = L.filter (fun s -> s <> "") (Stdlib.String.split_on_char ' ' line) in
        match ws with
        | "CASE" :: id :: rest ->
            Buffer.clear buf;
